@@ -64,7 +64,9 @@ def _case(draw):
                                 st.lists(st.sampled_from(PARTS), min_size=0, max_size=3)))
         txs.append({'kind': k, 'fields': f, 'unit': draw(st.integers(1, 247)), 'script': script})
     return {'client': client, 'tid_start': draw(st.sampled_from([0, 0, 65532, 65533, 65534, 65535])), 'txs': txs,
-            'serial': draw(transports.serial_options()) if client in ('rtu', 'ascii', 'binary') else {}}
+            'serial': draw(transports.serial_options()) if client in ('rtu', 'ascii', 'binary') else {},
+            # two client objects of the same kind in one process take turns (each has its own connection): nothing of one may show in the other
+            'two_clients': draw(st.booleans()) if client.startswith('tcp') else False}
 
 
 def strategy(tier):
@@ -146,13 +148,18 @@ def run_case(case):
     peer = ScriptPeer(framing)
     nt = len(case['txs']) >= 2
     with transports.World(peer) as w:
-        client = _mk_client(ckind, w, case.get('serial'))
+        clients = [_mk_client(ckind, w, case.get('serial'))]
         if case.get('serial'):
             labels.append('serial-opts:' + ','.join('%s=%s' % kv for kv in sorted(case['serial'].items())))
-        client.transaction.tid = case['tid_start']
-        leftovers = []           # frames still in the receive path from earlier calls
-        rest = b''
+        clients[0].transaction.tid = case['tid_start']
+        if case.get('two_clients') and ckind.startswith('tcp'):
+            clients.append(_mk_client(ckind, w, None))
+            clients[1].transaction.tid = case['tid_start']      # the same ids on both connections
+            labels.append('two-clients')
+        state = [{'leftovers': [], 'rest': b''} for _ in clients]     # per client: frames / bytes still in its receive path
         for i, tx in enumerate(case['txs']):
+            client = clients[i % len(clients)]
+            leftovers, rest = state[i % len(clients)]['leftovers'], state[i % len(clients)]['rest']
             peer.script = tx['script']
             peer.placed = []
             if any(p not in ('reply', 'exc') for p in tx['script']):
@@ -225,9 +232,10 @@ def run_case(case):
                     discs.append(Disc('conformant-reply-not-returned', '%s tx %d: returned a %s frame' % (ckind, i, match['role'])))
                     break
             # what is still unread stays in the receive path for the next call (TCP) or is flushed before the next send (serial)
-            conn = w.conns[-1] if w.conns else None
+            conn = client.socket
             rest = conn.rx if conn is not None and not conn.closed else b''
             leftovers = [p for p in candidates if p['frame'] in rest] if rest else []
+            state[i % len(clients)]['leftovers'], state[i % len(clients)]['rest'] = leftovers, rest
     pm.reset_globals()
     return Outcome(discs, labels, nt)
 
